@@ -2,7 +2,9 @@
 EXTENDS LzmaCodeContract, TLC
 
 MCInit == Init /\ MInit
-MCNext == Next /\ MStep(obs')
+\* after a re-initialisation the history a caller keeps starts afresh (pending input count stays: it is not read in RUN)
+MReinit == mEnded' = FALSE /\ mFatal' = FALSE /\ mFlush' = "NONE" /\ mStall' = FALSE /\ mPend' = mPend
+MCNext == (Next /\ MStep(obs')) \/ (\E sup \in SUBSET ValidActions : Reinit(sup) /\ MReinit)
 MCSpec == MCInit /\ [][MCNext]_<<vars, mvars>>
 
 \* history (obs, totals) is not part of the behaviour: hide it
